@@ -149,9 +149,10 @@ Theorem nodup_reachable : forall s, reachable pref s -> nodup (s_g s).
 Proof.
   intros s H. induction H as [|s lab s' o Hr IH Hs].
   - repeat split; constructor.
-  - destruct lab as [t op|t c]; cbn [sys_step] in Hs.
+  - destruct lab as [t op|t c|p]; cbn [sys_step] in Hs.
     + destruct (begin_op op (s_l s t)); inversion Hs; subst; auto.
     + destruct (step pref t c (s_g s) (s_l s t)) as [[[g' l'] o']|] eqn:E; inversion Hs; subst. eapply step_nodup; eauto.
+    + inversion Hs; subst. exact IH.
 Qed.
 
 (* the error returns inside the upgrade path that the model does not follow (MRETURN_ON_ERROR of the inner UnlockReadOnly(),
@@ -206,7 +207,8 @@ Theorem writer_pref_sys : forall s lab s' o w,
   sys_step true s lab = Some (s', o) -> memk w (g_ww (s_g s)) = true ->
   forall r e, find r (g_exec (s_g s)) = None -> find r (g_exec (s_g s')) = Some e -> e = mkEnt 0 1.
 Proof.
-  intros s lab s' o w H Hw r e Hf Hf'. destruct lab as [t op|t c]; cbn [sys_step] in H.
+  intros s lab s' o w H Hw r e Hf Hf'. destruct lab as [t op|t c|p]; cbn [sys_step] in H.
+  3: { inversion H; subst. cbn [s_g set_pool g_exec] in Hf'. congruence. }
   - destruct (begin_op op (s_l s t)); inversion H; subst. cbn [s_g] in Hf'. congruence.
   - destruct (step true t c (s_g s) (s_l s t)) as [[[g' l'] o']|] eqn:E; inversion H; subst. cbn [s_g] in Hf'.
     destruct (Nat.eq_dec r t) as [->|Hne].
@@ -222,7 +224,8 @@ Theorem writer_fifo_sys : forall pref s lab s' o h c r,
   sys_step pref s lab = Some (s', o) -> g_ww (s_g s) = (h, c) :: r ->
   forall t, find t (g_exec (s_g s)) = None -> find t (g_exec (s_g s')) = Some (mkEnt 0 1) -> t = h.
 Proof.
-  intros pref s lab s' o h c r H Ew t Hf Hf'. destruct lab as [k op|k ch]; cbn [sys_step] in H.
+  intros pref s lab s' o h c r H Ew t Hf Hf'. destruct lab as [k op|k ch|p]; cbn [sys_step] in H.
+  3: { inversion H; subst. cbn [s_g set_pool g_exec] in Hf'. congruence. }
   - destruct (begin_op op (s_l s k)); inversion H; subst. cbn [s_g] in Hf'. congruence.
   - destruct (step pref k ch (s_g s) (s_l s k)) as [[[g' l'] o']|] eqn:E; inversion H; subst. cbn [s_g] in Hf'.
     destruct (Nat.eq_dec t k) as [->|Hne].
